@@ -223,7 +223,7 @@ func runCache(e *env, replayCases []string) error {
 	}
 	e.sum.Extra = map[string]interface{}{"chunks": cacheChunks, "listing_bytes": len(c.listings[0]), "cold_names": c.coldN,
 		"crash_points_on_the_real_binary": "sampled: the profiler is SIGKILLed while the disassembler has printed j of 6 chunks (j = 0..6); I/O faults are sampled as EFBIG at 13 file sizes (RLIMIT_FSIZE); crash points between Flush, Close and Rename are covered by the theorem only",
-		"small_variant_bytes": 65 + len(c.listings[smallVariant])}
+		"small_variant_bytes":             65 + len(c.listings[smallVariant])}
 	var hs []History
 	if len(replayCases) > 0 {
 		for _, s := range replayCases {
